@@ -395,3 +395,86 @@ class RefEval(object):
             self.nnps.update()
         if g.post:
             g.post()
+
+
+class RefIntegrator(object):
+    """Executes an Integrator's `one_timestep` literally (the method object
+    of the integrator's class is called with this driver as `self`)."""
+
+    def __init__(self, integrator, steppers, arrays, evals, nnps,
+                 post_stage=None):
+        self.integrator = integrator
+        self.steppers = steppers          # name -> stepper (own copies)
+        self.by_name = dict((a.name, a) for a in arrays)
+        self.evals = evals                # list of RefEval, one per set
+        self.nnps = nnps
+        self.post_stage = post_stage
+        self.t = self.dt = self.orig_t = _f64(0.0)
+        self.log = []
+        self.real_stepped = 0
+        self._cur = None
+
+    # ---- what one_timestep may call
+    def compute_accelerations(self, index=0, update_nnps=True):
+        if update_nnps:
+            self.nnps.update()
+        self.evals[index].compute(self.t, self.dt)
+
+    def update_domain(self):
+        self.nnps.update_domain()
+
+    def do_post_stage(self, stage_dt, stage):
+        self.t = _f64(self.orig_t + stage_dt)
+        self.log.append((float(self.t), float(self.dt), int(stage)))
+        if self.post_stage is not None:
+            self.post_stage(self.t, self.dt, stage)
+
+    def __getattr__(self, name):
+        if name == 'initialize' or (name.startswith('stage') and
+                                    name[5:].isdigit()):
+            return lambda: self._stage(name)
+        raise AttributeError(name)
+
+    def _stage(self, method):
+        t, dt = self.t, self.dt
+        for dest in sorted(self.steppers):
+            st = self.steppers[dest]
+            pa = self.by_name[dest]
+            py = getattr(st, 'py_' + method, None)
+            if py is not None:
+                py(pa, t, dt)
+            meth = getattr(st, method, None)
+            if meth is None:
+                continue
+            env = {}
+            for nm in list(pa.properties.keys()) + list(pa.constants.keys()):
+                env['d_' + nm] = ArrayProxy(
+                    pa.get_carray(nm).get_npy_array(), 'd_' + nm)
+            env['t'] = t
+            env['dt'] = dt
+            args = args_of(meth)
+            n = pa.get_number_of_particles(True)
+            for d_idx in range(n):
+                env['d_idx'] = d_idx
+                kw = {}
+                for a in args:
+                    if a not in env:
+                        raise RefUndefined('stepper argument %s not '
+                                           'available' % a)
+                    kw[a] = env[a]
+                try:
+                    meth(**kw)
+                except RefUndefined:
+                    raise
+                except (ZeroDivisionError, ValueError, OverflowError,
+                        TypeError, IndexError, NameError) as ex:
+                    raise RefUndefined('python-only exception %r in %s' % (
+                        ex, method))
+                self.real_stepped += 1
+
+    def step(self, t, dt):
+        self.orig_t = _f64(t)
+        self.t = _f64(t)
+        self.dt = _f64(dt)
+        with np.errstate(all='ignore'):
+            type(self.integrator).one_timestep(self, _f64(t), _f64(dt))
